@@ -9,6 +9,7 @@ import (
 	"sync"
 	"testing"
 	"testing/synctest"
+	"time"
 
 	"go.dedis.ch/kyber/v4"
 	"go.dedis.ch/kyber/v4/encrypt/ecies"
@@ -82,6 +83,7 @@ type pedWorld struct {
 	holePm      int
 	lateCopies  [][]delivery
 	variantName string
+	timePhaser  bool
 }
 
 type outMsg struct {
@@ -166,7 +168,7 @@ func (w *pedWorld) sign(p *party, pkt pdkg.Packet) {
 
 // ---------------------------------------------------------------- Byzantine menu
 
-var dealerMenu = []string{"deal-absent", "deal-wrong-share", "deal-garbage-cipher", "deal-swapped", "deal-index-outside", "deal-poly-length",
+var dealerMenu = []string{"deal-readdressed-outside", "deal-absent", "deal-wrong-share", "deal-garbage-cipher", "deal-swapped", "deal-index-outside", "deal-poly-length",
 	"deal-wrong-session", "deal-equivocate", "deal-thrice", "deal-bad-signature", "deal-foreign-index", "deal-wrong-constant"}
 var holderMenu = []string{"resp-false-complaint", "resp-success-in-slow-mode", "resp-silent", "resp-unknown-dealer", "resp-conflicting", "resp-wrong-session"}
 var justMenu = []string{"just-wrong-share", "just-index-outside", "just-missing", "just-wrong-session", "just-twice"}
@@ -267,9 +269,19 @@ func (w *pedWorld) mutate(p *party, pkt pdkg.Packet) []pdkg.Packet {
 			} else {
 				b.Deals = append(b.Deals, extra)
 			}
-			w.fatal[me] = "deal for a share index outside the new group"
+			// nobody honest is wronged by a surplus deal: membership is left to the agreement oracle
 			w.info.ByzFired("deal-index-outside")
 			resign = true
+		}
+		if p.beh["deal-readdressed-outside"] {
+			// the deal of one holder is re-addressed to an index outside the group; the other holders keep valid deals
+			if k := pickVictim(); k >= 0 {
+				victim := b.Deals[k].ShareIndex
+				b.Deals[k].ShareIndex = uint32(1000 + t.Intn("byz.pick", 5))
+				w.markBadDeal(me, victim)
+				w.info.ByzFired("deal-readdressed-outside")
+				resign = true
+			}
 		}
 		if p.beh["deal-poly-length"] {
 			if t.Bool("byz.pick", 500) && len(b.Public) > 1 {
@@ -549,7 +561,189 @@ func (w *pedWorld) runProtocol() (v *core.Violation) {
 	return v
 }
 
+// protocolBubbleTime is the second Protocol-mode configuration: kyber's own TimePhaser drives every
+// node under the bubble's fake clock, with pairwise distinct periods and start offsets (clock skew as a
+// simulation parameter; distinct, so that no two timers ever fire at the same fake instant, which would
+// hand the choice of who runs to the Go scheduler). A packet is delivered at the fake instant it was
+// sent, in tape order, before the clock is allowed to advance to the next tick. With skew below a
+// third of the period this is the phase-synchronous model again.
+func (w *pedWorld) protocolBubbleTime() *core.Violation {
+	g := kit.Ed()
+	t := w.t
+	info := w.info
+	pdkg.VerifPermute = func(n int) []int { return t.Perm("sched.perm", n) }
+	defer func() { pdkg.VerifPermute = nil }()
+	const P = 100 * time.Second
+	type clk struct {
+		start, period time.Duration
+	}
+	clks := make([]clk, len(w.parties))
+	order := t.Perm("sched.skew", len(w.parties))
+	for i := range w.parties {
+		// distinct offsets (< P/10) and periods (P .. 1.07 P)
+		clks[i] = clk{start: time.Duration(order[i]+1) * 700 * time.Millisecond, period: P + time.Duration(order[(i+1)%len(order)]+1)*time.Second}
+	}
+	begin := time.Now()
+	for i, p := range w.parties {
+		p.board = &simBoard{w: w, p: p, dealCh: make(chan pdkg.DealBundle), respCh: make(chan pdkg.ResponseBundle), justCh: make(chan pdkg.JustificationBundle)}
+		c := clks[i]
+		ph := pdkg.NewTimePhaser(c.period)
+		proto, err := pdkg.NewProtocol(w.config(p), p.board, ph, false)
+		if err != nil {
+			return pviol("setup", "setup/newprotocol/"+w.variantName, "NewProtocol for party %d: %v", p.id, err)
+		}
+		p.proto = proto
+		go func() {
+			time.Sleep(c.start)
+			ph.Start()
+		}()
+	}
+	info.Fault("clock-skew")
+	tickOf := func(i int, now time.Duration) int { // number of ticks node i has received by `now`
+		c := clks[i]
+		if now < c.start {
+			return 0
+		}
+		k := int((now-c.start)/c.period) + 1
+		if k > 4 {
+			k = 4
+		}
+		return k
+	}
+	// all tick instants, ascending
+	var instants []time.Duration
+	for i := range w.parties {
+		for k := 0; k < 4; k++ {
+			instants = append(instants, clks[i].start+time.Duration(k)*clks[i].period)
+		}
+	}
+	sort.Slice(instants, func(a, b int) bool { return instants[a] < instants[b] })
+	var pool, late []delivery
+	poll := func() {
+		for _, p := range w.parties {
+			if p.exited {
+				continue
+			}
+			select {
+			case r := <-p.proto.WaitEnd():
+				p.done, p.res, p.err, p.exited = true, r.Result, r.Error, true
+				info.Logf("  party %d finished: result=%v err=%v", p.id, r.Result != nil, r.Error)
+			default:
+			}
+		}
+	}
+	crashed := func(p *party, now time.Duration) bool {
+		return p.faulty == "crash" && tickOf(p.id, now) > p.crashRound
+	}
+	for step := 0; step <= len(instants); step++ {
+		synctest.Wait()
+		now := time.Since(begin)
+		poll()
+		for {
+			w.mu.Lock()
+			ob := w.outbox
+			w.outbox = nil
+			w.mu.Unlock()
+			for _, m := range ob {
+				if crashed(m.from, now) {
+					continue
+				}
+				for _, pk := range w.mutate(m.from, m.pkt) {
+					if err := pdkg.VerifyPacketSignature(w.config(m.from), pk); err == nil {
+						w.record(pk)
+					}
+					info.Logf("  t=%v party %d broadcasts %s[%d #%s]", now.Round(time.Millisecond), m.from.id, pktKind(pk), pk.Index(), pktHash(pk))
+					for _, q := range w.parties {
+						if (q == m.from && !w.echo) || crashed(q, now) {
+							continue
+						}
+						copies := 1
+						if w.dupPm > 0 && t.Bool("net.dup", w.dupPm) {
+							copies = 2 + t.Intn("net.dup", 2)
+							info.Fault("duplicate")
+						}
+						for c := 0; c < copies; c++ {
+							dl := delivery{to: q, pkt: copyPkt(g, pk), copy: c}
+							if c > 0 && w.lateDupPm > 0 && t.Bool("net.dup", w.lateDupPm) {
+								late = append(late, dl)
+								info.Fault("late-duplicate")
+								continue
+							}
+							pool = append(pool, dl)
+						}
+					}
+				}
+			}
+			if len(pool) == 0 {
+				break
+			}
+			k := t.Intn("sched", len(pool))
+			if k != 0 {
+				info.NonTrivial = true
+			}
+			d := pool[k]
+			pool = append(pool[:k], pool[k+1:]...)
+			if d.to.exited || crashed(d.to, now) {
+				continue
+			}
+			sent := false
+			switch b := d.pkt.(type) {
+			case *pdkg.DealBundle:
+				select {
+				case d.to.board.dealCh <- *b:
+					sent = true
+				default:
+				}
+			case *pdkg.ResponseBundle:
+				select {
+				case d.to.board.respCh <- *b:
+					sent = true
+				default:
+				}
+			case *pdkg.JustificationBundle:
+				select {
+				case d.to.board.justCh <- *b:
+					sent = true
+				default:
+				}
+			}
+			if !sent {
+				d.to.exited = true
+				continue
+			}
+			info.Logf("t=%v %s[%d #%s copy%d] -> party %d", now.Round(time.Millisecond), pktKind(d.pkt), d.pkt.Index(), pktHash(d.pkt), d.copy, d.to.id)
+			info.SigAdd("M%d:%s:%d:%d", d.to.id, pktKind(d.pkt), d.pkt.Index(), d.copy)
+			info.Events++
+			synctest.Wait()
+			poll()
+		}
+		if step == len(instants) {
+			break
+		}
+		// let the clock run to just after the next tick; late copies of this interval go out then
+		next := instants[step] + time.Nanosecond
+		if d := next - time.Since(begin); d > 0 {
+			time.Sleep(d)
+		}
+		info.Logf("t=%v tick", instants[step].Round(time.Millisecond))
+		info.SigAdd("T%v", instants[step])
+		pool = append(pool, late...)
+		late = nil
+	}
+	synctest.Wait()
+	poll()
+	for _, p := range w.parties {
+		if p.faulty == "crash" {
+			info.Fault("crash-stop")
+		}
+	}
+	return nil
+}
+
 func (w *pedWorld) protocolBubble() *core.Violation {
+	if w.timePhaser {
+		return w.protocolBubbleTime()
+	}
 	g := kit.Ed()
 	t := w.t
 	info := w.info
